@@ -425,6 +425,8 @@ def answers_agree(impl, model):
         for x, y in zip(ta, tb):
             if x == y or y == '*':
                 continue
+            if y.startswith('<=') and x.isdigit() and y[2:].isdigit() and int(x) <= int(y[2:]):
+                continue          # a bound given by the model (allocator calls)
             for sep in (':', '='):
                 if sep in x and sep in y and x.split(sep, 1)[0] == y.split(sep, 1)[0]:
                     x, y = x.split(sep, 1)[1], y.split(sep, 1)[1]
